@@ -203,7 +203,7 @@ CHECKS = {
             {"variant": "opt", "sub": "c01", "shards": T(tier, 1, 3), "cases": T(tier, 1, 2), "args": {"inputs": T(tier, 6, 40), "threads": 16}, "timeout": T(tier, 1800, 10800), "weight": 16},
         ],
         "parallel": 1,
-        "rule": "per key (boundary lengths 32/0/1/12/59/60/61/64/200 then random): up to six caches ({default, JIT} x {ref, SSSE3, AVX2}), a dataset built by the compiled initialiser on 16 threads with odd range boundaries (thorough: a second one by the interpreter initialiser, compared in full), "
+        "rule": "per key (boundary lengths 32/0/1/12/59/60/61/64/200 then random): up to six caches ({default, JIT} x {ref, SSSE3, AVX2}), a dataset built by the compiled initialiser on 16 threads with odd range boundaries (items around every range boundary and 4000 random items are compared with the light-mode item; thorough: a second dataset by the interpreter initialiser, compared in full), "
                 "and VMs {interpreter, JIT, JIT+SECURE, SECURE without JIT} x {soft, hard AES} x {light on each cache, fast on each dataset}, some with LARGE_PAGES (served by ordinary pages through the interposed mmap), a third created with RANDOMX_FLAG_V2 and switched back with clearFlagV2, the others switched with setFlagV2, a third using first/next/last batches; "
                 "each (key, input, version) digest must be identical across all configurations; non-trivial = at least 12 configurations compared; distinct by hash of the triple",
         "assumptions": ["agreement says nothing about correctness (C02 ties the common value to the specification)", "large-page VM classes run with ordinary pages (no hugetlb pages in the sandbox)"],
